@@ -119,24 +119,26 @@ _native_lock = threading.Lock()
 _native_bins = {}
 
 
-def native_binary(pkgdir, ovdir, tmp):
-    """go test -c of /repo/<pkgdir> with the overlay; cached per run."""
+def native_binary(pkgdir, ovdir, tmp, race=False):
+    """go test -c of /repo/<pkgdir> with the overlay; cached per run. race=True: built with the
+    race detector (used to confirm happens-before findings of the engine)."""
     with _native_lock:
-        if pkgdir in _native_bins:
-            return _native_bins[pkgdir]
+        key = pkgdir + ("|race" if race else "")
+        if key in _native_bins:
+            return _native_bins[key]
         repl = {}
         for f in os.listdir(ovdir):
             repl[os.path.join(REPO, pkgdir, f)] = os.path.join(ovdir, f)
         ovjson = os.path.join(tmp, "overlay_%s.json" % (pkgdir.replace("/", "_") or "root"))
         json.dump({"Replace": repl}, open(ovjson, "w"))
-        binp = os.path.join(tmp, "replay_%s.test" % (pkgdir.replace("/", "_") or "root"))
+        binp = os.path.join(tmp, "replay_%s%s.test" % (pkgdir.replace("/", "_") or "root", "_race" if race else ""))
         t0 = time.time()
-        r = subprocess.run(["go", "test", "-c", "-tags", "verif", "-vet=off", "-overlay", ovjson, "-o", binp,
+        r = subprocess.run(["go", "test", "-c"] + (["-race"] if race else []) + ["-tags", "verif", "-vet=off", "-overlay", ovjson, "-o", binp,
                             "./" + pkgdir], cwd=REPO, env=GOENV, capture_output=True, text=True)
         if r.returncode != 0:
             raise MachineryError("native build of %s failed:\n%s%s" % (pkgdir, r.stdout, r.stderr))
         log("  native build %s: %.1fs" % (pkgdir, time.time() - t0))
-        _native_bins[pkgdir] = binp
+        _native_bins[key] = binp
         return binp
 
 
@@ -477,7 +479,14 @@ def run_check(pid, tier):
                 order = any(iv["kind"] == "m" for iv in (v["inputs"] or []))
                 confirmed, nr = False, None
                 if binp:
-                    if v["kind"] in ("steps", "deadlock"):
+                    if v["kind"] == "race":
+                        rb = native_binary(j.pkg, ovdirs[j.pkg], tmp, race=True)
+                        for _ in range(20):
+                            nr = native_run(rb, tape, timeout=60)
+                            if "DATA RACE" in nr["out"]:
+                                confirmed = True
+                                break
+                    elif v["kind"] in ("steps", "deadlock"):
                         nr = native_run(binp, tape, timeout=j.hang_timeout)
                         confirmed = nr["status"] == "hang"
                     elif order:
@@ -571,6 +580,19 @@ def setup():
     sys.stderr.write(r.stdout + r.stderr)
     if r.returncode != 0:
         raise MachineryError("engine self test failed")
+    # the happens-before tracker must report a deliberately racy use of the lexer
+    tmp = tempfile.mkdtemp(prefix="vsetup_")
+    try:
+        ov = build_overlay("parse", tmp)
+        res = run_gosym(Job("parse", "H_raceSelftest", "", workers=1), ov, tmp)
+        if not any(v["kind"] == "race" for v in res["violations"] or []):
+            raise MachineryError("race tracker self test: the racy harness was not reported")
+        res = run_gosym(Job("parse", "H_validFile", "", workers=1), ov, tmp)
+        if res["violations"] or res["paths"] != 1:
+            raise MachineryError("engine smoke test failed")
+        sys.stderr.write("race tracker self test ok\n")
+    finally:
+        shutil.rmtree(tmp, ignore_errors=True)
     return 0
 
 
